@@ -250,6 +250,32 @@ impl Space for Bytes {
         if buf != plain {
             r.viol("decrypt_file_data does not invert encrypt_data", format!("len={len} key={:#010x} tail={}", key, len % 4));
         }
+        // the same buffer at every position inside an allocation (sub-slices starting 0..=3 bytes in: at
+        // least three of them are not 4-byte aligned): cipher text and inverse must not depend on the address
+        for off in 0..4usize {
+            let mut area = vec![0xEEu8; off + len + 5];
+            area[off..off + len].copy_from_slice(&plain);
+            builder.encrypt_data(&mut area[off..off + len], key);
+            if area[off..off + w] != refb[..w] {
+                r.viol("encrypt_data whole-dword part differs from reference cipher for a buffer that starts inside an allocation", format!("len={len} key={:#010x} start offset {off}", key));
+            }
+            if area[..off].iter().any(|b| *b != 0xEE) || area[off + len..].iter().any(|b| *b != 0xEE) {
+                r.viol("encrypt_data writes outside the buffer it was given", format!("len={len} start offset {off}"));
+            }
+            wow_mpq::decrypt_file_data(&mut area[off..off + len], key);
+            if area[off..off + len] != plain[..] {
+                r.viol("decrypt_file_data does not invert encrypt_data for a buffer that starts inside an allocation", format!("len={len} key={:#010x} start offset {off}", key));
+            }
+            if area[..off].iter().any(|b| *b != 0xEE) || area[off + len..].iter().any(|b| *b != 0xEE) {
+                r.viol("decrypt_file_data writes outside the buffer it was given", format!("len={len} start offset {off}"));
+            }
+            // and decrypting reference cipher text at that position
+            area[off..off + len].copy_from_slice(&refb);
+            wow_mpq::decrypt_file_data(&mut area[off..off + len], key);
+            if area[off..off + w] != plain[..w] {
+                r.viol("decrypt_file_data does not decrypt reference cipher text for a buffer that starts inside an allocation", format!("len={len} key={:#010x} start offset {off}", key));
+            }
+        }
         // u32 API on the same data when aligned
         if len % 4 == 0 {
             let mut w32: Vec<u32> = plain.chunks(4).map(|c| u32::from_le_bytes([c[0], c[1], c[2], c[3]])).collect();
@@ -447,7 +473,7 @@ fn build(name: &str, _arg: &str, tier: Tier) -> Box<dyn Space> {
 
 fn main() {
     let Mode::Supervisor(mut c) = start("C04", "exploration", build) else { return };
-    c.rule = "every string of <=2 chars over U+0000..U+07FF x 4 hash types vs refimpl (case = one first char); all 1280 table entries; keys x fixed 3-dword buffer; key pool x byte lengths 0..17 (+sector-ish) x 3 contents through encrypt_data/decrypt_file_data; all names of length 0..L over {a,/,Q} (L = 12 quick / 15 thorough) x 5 HET widths vs independent lookup3; space longnames: names of EVERY byte length 0..600 (thorough ..5000) in 6 fill patterns (letters, path with both separators, mixed case, non-ASCII, punctuation) x 4 hash types + fold invariance + EVERY HET width 8..=64. A case is non-trivial when it hashes/encrypts at least one non-empty input; distinct by case index.".into();
+    c.rule = "every string of <=2 chars over U+0000..U+07FF x 4 hash types vs refimpl (case = one first char); all 1280 table entries; keys x fixed 3-dword buffer; key pool x byte lengths 0..17 (+sector-ish) x 3 contents through encrypt_data/decrypt_file_data, each also as a sub-slice starting 0..3 bytes inside an allocation (unaligned addresses, guard bytes on both sides); all names of length 0..L over {a,/,Q} (L = 12 quick / 15 thorough) x 5 HET widths vs independent lookup3; space longnames: names of EVERY byte length 0..600 (thorough ..5000) in 6 fill patterns (letters, path with both separators, mixed case, non-ASCII, punctuation) x 4 hash types + fold invariance + EVERY HET width 8..=64. A case is non-trivial when it hashes/encrypts at least one non-empty input; distinct by case index.".into();
     c.assume("hash_string takes &str: bytes 0xC0,0xC1,0xF5..0xFF can never reach it from safe code; the fold table entries for them are unobservable and not judged");
     c.assume("HET fold: either upper- or lower-case folding is accepted provided it is the same for every name (the property fixes only that the name is folded)");
     c.assume("reference: /verif/harness/refimpl (crypt table from the seed recurrence, name hash, block cipher, lookup3) shares no code with /repo");
